@@ -325,3 +325,318 @@ pub fn with_alpha(mut p: Prog, f: impl FnOnce(&mut Alphabet)) -> Prog {
     f(&mut p.alpha);
     p
 }
+
+// ------------------------------------------------------------------------------------------
+// named families (resolved by workers; must be deterministic)
+
+use crate::plan::Tier;
+
+fn core_alpha(p: Prog) -> Prog {
+    with_alpha(p, |a| {
+        a.max_observers = 2;
+    })
+}
+
+pub fn full_menu() -> Menu {
+    Menu {
+        map_fns: vec![F1::Inc, F1::Par],
+        map2_fns: vec![F2::Mix, F2::Max],
+        map_ref: true,
+        map_with_old: true,
+        fold: true,
+        zip: true,
+        depend_on: true,
+        bind_rhs: vec!["E", "F", "FC"],
+    }
+}
+
+pub fn family(name: &str, _tier: Tier) -> Vec<Prog> {
+    match name {
+        "c01/catalogue" => catalogue().into_iter().map(|(_, p)| core_alpha(p)).collect(),
+        "c01/grammar1" => grammar(&full_menu(), 2, 1).into_iter().chain(grammar(&full_menu(), 1, 1)).map(core_alpha).collect(),
+        "c01/grammar2-repr" => grammar(&Menu::one_fn(), 2, 2)
+            .into_iter()
+            .chain(grammar(&Menu::one_fn(), 1, 2))
+            .filter(representative)
+            .map(core_alpha)
+            .collect(),
+        "c01/grammar2" => grammar(&Menu::core(), 2, 2).into_iter().chain(grammar(&Menu::core(), 1, 2)).map(core_alpha).collect(),
+        // only sink nodes are observable, one observer at a time: long un-observe / re-observe
+        // histories become reachable (DESIGN C01 "unobserved for a while and observed again")
+        "c01/reobserve" => catalogue()
+            .into_iter()
+            .map(|(_, p)| p)
+            .chain(grammar(&full_menu(), 2, 1))
+            .chain(grammar(&full_menu(), 1, 1))
+            .map(sinks_only)
+            .collect(),
+        // sinks plus one interior node observable, two observers: a node is un-observed while
+        // its input stays needed, then observed again
+        "c01/reobserve2" => catalogue()
+            .into_iter()
+            .map(|(_, p)| p)
+            .chain(grammar(&full_menu(), 2, 1))
+            .chain(grammar(&full_menu(), 1, 1))
+            .flat_map(sinks_plus_one)
+            .collect(),
+        "c03/inner" => bind_programs().into_iter().flat_map(pin_binds).collect(),
+        "c03/stale_rhs" => stale_rhs_programs(),
+        "c05/clones" => catalogue()
+            .into_iter()
+            .map(|(_, p)| p)
+            .chain(grammar(&Menu::one_fn(), 2, 1))
+            .map(|p| {
+                with_alpha(p, |a| {
+                    a.clone_obs = true;
+                    a.max_observers = 2;
+                    a.values = vec![0, 1];
+                })
+            })
+            .collect(),
+        "c06/cutoffs" => cutoff_programs(false),
+        "c06/cutoffs-full" => cutoff_programs(true),
+        "c07/reads" => catalogue()
+            .into_iter()
+            .map(|(_, p)| p)
+            .filter(|p| p.nodes.len() <= 5)
+            .map(|p| {
+                with_alpha(p, |a| {
+                    a.closures_read_observers = true;
+                    a.subscribe = true;
+                    a.max_subs = 1;
+                    a.max_observers = 2;
+                    a.disallow = false;
+                    a.values = vec![0, 1];
+                })
+            })
+            .collect(),
+        "c09/subs" => subscription_programs(),
+        "c11/on_update" => catalogue()
+            .into_iter()
+            .map(|(_, p)| p)
+            .filter(|p| p.nodes.len() <= 5)
+            .map(|p| {
+                with_alpha(p, |a| {
+                    a.on_update = true;
+                    a.subscribe = true;
+                    a.unsubscribe = true;
+                    a.max_subs = 1;
+                    a.max_observers = 2;
+                    a.values = vec![0, 1];
+                })
+            })
+            .collect(),
+        "c11/drop_handles" => catalogue()
+            .into_iter()
+            .map(|(_, p)| p)
+            .map(|p| {
+                with_alpha(p, |a| {
+                    a.drop_handle = true;
+                    a.max_observers = 2;
+                    a.values = vec![0, 1];
+                })
+            })
+            .collect(),
+        _ => vec![],
+    }
+}
+
+/// programs whose binds build fresh nodes
+fn bind_programs() -> Vec<Prog> {
+    let menu = Menu {
+        bind_rhs: vec!["E", "F", "FC", "FF"],
+        ..Menu::one_fn()
+    };
+    catalogue()
+        .into_iter()
+        .map(|(_, p)| p)
+        .chain(grammar(&menu, 2, 1))
+        .chain(grammar(&menu, 1, 2).into_iter().filter(representative))
+        .filter(|p| {
+            p.nodes.iter().any(|n| match &n.recipe {
+                Recipe::Bind { even, odd, .. } => !matches!(even, Rhs::E(_)) || !matches!(odd, Rhs::E(_)),
+                _ => false,
+            })
+        })
+        .collect()
+}
+
+/// one variant per bind: that bind is pinned (always observed), its inner nodes observable,
+/// observers can be subscribed to
+fn pin_binds(p: Prog) -> Vec<Prog> {
+    let mut out = vec![];
+    for (i, n) in p.nodes.iter().enumerate() {
+        let Recipe::Bind { even, odd, .. } = &n.recipe else { continue };
+        if matches!(even, Rhs::E(_)) && matches!(odd, Rhs::E(_)) {
+            continue;
+        }
+        if (i as u8) >= p.precreated {
+            continue;
+        }
+        let mut q = p.clone();
+        q.pinned = vec![i as u8];
+        q.alpha.observe_inner = true;
+        q.alpha.subscribe = true;
+        q.alpha.max_subs = 1;
+        q.alpha.max_observers = 2;
+        q.alpha.values = vec![0, 1, 2];
+        // outer observers only on nodes other than the pinned bind's own inputs keep the alphabet small
+        out.push(q);
+    }
+    out
+}
+
+fn stale_rhs_programs() -> Vec<Prog> {
+    use Rhs::*;
+    let mk = |nodes: Vec<NodeSpec>, pin: u8| {
+        let mut p = Prog::new(nodes);
+        p.pinned = vec![pin];
+        p.alpha.observe_inner = true;
+        p.alpha.subscribe = true;
+        p.alpha.max_subs = 2;
+        p.alpha.max_observers = 2;
+        p
+    };
+    vec![
+        mk(vec![var(0), var(1), bind(0, ST(1), ST(1))], 2),
+        mk(vec![var(0), var(1), bind(0, ST(1), F(1)), map(F1::Inc, 2)], 2),
+        mk(vec![var(0), var(1), map(F1::Inc, 1), bind(0, ST(2), E(2))], 3),
+    ]
+}
+
+fn cutoff_programs(full: bool) -> Vec<Prog> {
+    use Rhs::*;
+    let bases: Vec<(Vec<NodeSpec>, Vec<u8>)> = vec![
+        (vec![var(0), map(F1::Half, 0), map(F1::Inc, 1)], vec![0, 1, 2]),
+        (vec![var(0), var(1), map2(F2::Max, 0, 1), map(F1::Par, 2)], vec![0, 2, 3]),
+        (vec![var(0), map(F1::Half, 0), bind(1, F(0), E(0))], vec![0, 1, 2]),
+        (vec![var(0), var(1), n(Recipe::Fold(vec![0, 1, 0])), map(F1::Half, 2)], vec![1, 2, 3]),
+        (vec![var(0), n(Recipe::MapWithOld(0)), map(F1::Inc, 1)], vec![0, 1, 2]),
+        (vec![var(0), var(1), n(Recipe::Zip(0, 1)), n(Recipe::MapRef(2)), map(F1::Inc, 3)], vec![0, 3, 4]),
+        (vec![var(0), map(F1::Half, 0), map(F1::Half, 0), map2(F2::Mix, 1, 2)], vec![1, 2, 3]),
+        (vec![var(0), var(1), bind(0, E(1), F(1)), map(F1::Half, 2)], vec![1, 2, 3]),
+    ];
+    let kinds: Vec<Cut> = if full {
+        vec![Cut::Default, Cut::Never, Cut::Always, Cut::FnEq, Cut::BoxEq, Cut::FnPar, Cut::BoxPar]
+    } else {
+        vec![Cut::Default, Cut::Never, Cut::Always, Cut::FnEq, Cut::BoxPar]
+    };
+    let mut out = vec![];
+    for (nodes, targets) in bases {
+        let k = kinds.len();
+        for code in 0..k.pow(targets.len() as u32) {
+            let mut nodes = nodes.clone();
+            let mut c = code;
+            let mut all_default = true;
+            for t in targets.iter() {
+                let cut = kinds[c % k];
+                c /= k;
+                // MapRef consults its cutoff from child_changed, possibly several times: keep it unlogged
+                if matches!(nodes[*t as usize].recipe, Recipe::MapRef(_)) && cut.is_logged() {
+                    all_default = false;
+                    nodes[*t as usize].cut = Cut::Never;
+                    continue;
+                }
+                if cut != Cut::Default {
+                    all_default = false;
+                }
+                nodes[*t as usize].cut = cut;
+            }
+            let _ = all_default;
+            let mut p = Prog::new(nodes);
+            let sinks = sinks_only(p.clone()).alpha.observable;
+            p.alpha.observable = sinks;
+            p.alpha.max_observers = 1;
+            p.alpha.disallow = false;
+            out.push(p);
+        }
+    }
+    out.dedup();
+    out
+}
+
+fn subscription_programs() -> Vec<Prog> {
+    use Rhs::*;
+    let mut out = vec![];
+    let alpha = |p: &mut Prog, inner: bool| {
+        p.alpha.subscribe = true;
+        p.alpha.unsubscribe = true;
+        p.alpha.state_unsubscribe = true;
+        p.alpha.clone_obs = true;
+        p.alpha.max_observers = 2;
+        p.alpha.max_subs = 2;
+        p.alpha.values = vec![0, 1, 2];
+        p.alpha.observe_inner = inner;
+    };
+    // one shared node with a collapsing function (changes are sometimes cut off)
+    let mut p = Prog::new(vec![var(0), map(F1::Half, 0)]);
+    p.alpha.observable = vec![1];
+    alpha(&mut p, false);
+    out.push(p);
+    // Never cutoff: every recompute is a change
+    let mut p = Prog::new(vec![var(0), map(F1::Half, 0).cut(Cut::Never)]);
+    p.alpha.observable = vec![1];
+    alpha(&mut p, false);
+    out.push(p);
+    // two nodes, one downstream of the other
+    let mut p = Prog::new(vec![var(0), map(F1::Half, 0), map(F1::Inc, 1)]);
+    p.alpha.observable = vec![1, 2];
+    alpha(&mut p, false);
+    p.alpha.clone_obs = false;
+    out.push(p);
+    // inside a bind, so that observed nodes get invalidated
+    let mut p = Prog::new(vec![var(0), var(1), bind(0, F(1), F(1))]);
+    p.pinned = vec![2];
+    p.alpha.observable = vec![2];
+    alpha(&mut p, true);
+    p.alpha.clone_obs = false;
+    p.alpha.state_unsubscribe = false;
+    out.push(p);
+    // the bind output itself (switches between existing nodes)
+    let mut p = Prog::new(vec![var(0), var(1), map(F1::Half, 1), bind(0, E(1), E(2))]);
+    p.alpha.observable = vec![3];
+    alpha(&mut p, false);
+    p.alpha.clone_obs = false;
+    out.push(p);
+    out
+}
+
+fn sinks_plus_one(p: Prog) -> Vec<Prog> {
+    let base = sinks_only(p);
+    let mut out = vec![];
+    for i in 0..base.nodes.len() as u8 {
+        if base.alpha.observable.contains(&i) || matches!(base.nodes[i as usize].recipe, Recipe::Var(_) | Recipe::Const(_)) {
+            continue;
+        }
+        let mut q = base.clone();
+        q.alpha.observable.push(i);
+        q.alpha.max_observers = 2;
+        q.alpha.values = vec![0, 1];
+        out.push(q);
+    }
+    out
+}
+
+fn sinks_only(p: Prog) -> Prog {
+    let mut used = vec![false; p.nodes.len()];
+    for s in p.nodes.iter() {
+        for i in s.recipe.inputs() {
+            used[i as usize] = true;
+        }
+    }
+    let sinks: Vec<u8> = (0..p.nodes.len() as u8).filter(|i| !used[*i as usize]).collect();
+    with_alpha(p, |a| {
+        a.observable = sinks;
+        a.max_observers = 1;
+        a.disallow = false;
+    })
+}
+
+/// thinning used by quick tiers: bind alternatives are kept up to exchanging even/odd, and a
+/// bind's two alternatives must differ
+fn representative(p: &Prog) -> bool {
+    p.nodes.iter().all(|n| match &n.recipe {
+        Recipe::Bind { even, odd, .. } => format!("{even:?}") < format!("{odd:?}"),
+        _ => true,
+    })
+}
